@@ -247,7 +247,7 @@ func runC16(w *World, r *Report, tier string) {
 				viaOK = true
 			}
 		})
-		val := rvI(ret.Results[0], len(path)-1)
+		val := rvI(rres(path, ret)[0], len(path)-1)
 		if viaOK {
 			nOK++
 			readOK := perr != nil && pathAsserts(path, func(c ssa.Value, truth bool) bool { return assertsNil(c, truth, perr) })
